@@ -501,7 +501,7 @@ struct Gen {
 			}
 			case O_VASSIGN_CONV: case O_VASSIGN_RANGE: case O_VASSIGN_IL: case O_VFILL: case O_EASSIGN_IL: {
 				MView dv;
-				int const fv   = o.kind == O_VFILL ? rng.below(7) : 0;  // 0: member fill (1-D views); 1..6: element by element through the flat iterators
+				int const fv   = o.kind == O_VFILL ? rng.below(9) : 0;  // 0: member fill (1-D views); 1..8: element by element through the flat iterators
 				int const want = o.kind == O_VFILL && fv == 0 ? 1 : -1;
 				if(!find_view(D, o.a, want, nullptr, false, o.ca, dv) || dv.count() == 0) continue;
 				o.v   = rval();
